@@ -292,18 +292,21 @@ func (l *hookLog) Info(string, ...zap.Field)  {}
 func (l *hookLog) Error(string, ...zap.Field) {}
 func (l *hookLog) Sync() error                { return nil }
 func (l *hookLog) Warn(msg string, fs ...zap.Field) {
-	if msg != "connect failed; retrying" {
-		return
-	}
-	l.mu.Lock()
+	// the retry announcement is recognised by its `backoff` field, not by its text
 	w := int64(-1)
+	has := false
 	for _, f := range fs {
 		if f.Key == "backoff" {
+			has = true
 			if d, err := time.ParseDuration(f.String); err == nil {
 				w = int64(d)
 			}
 		}
 	}
+	if !has && msg != "connect failed; retrying" {
+		return
+	}
+	l.mu.Lock()
 	if w < 0 {
 		l.unparsed++
 	}
@@ -324,6 +327,9 @@ type fakeSrv struct {
 	cancel   func()
 	mu       sync.Mutex
 	conns    []*gws.Conn
+	// cancel-after fallback (see ServeHTTP)
+	cancelAfter int
+	announced   func() int
 }
 
 var upgrader = gws.Upgrader{}
@@ -342,6 +348,16 @@ func (s *fakeSrv) ServeHTTP(w http.ResponseWriter, r *http.Request) {
 	}
 	if k == s.cancelAt {
 		s.cancel()
+	}
+	if k == s.cancelAfter && s.announced != nil {
+		// fallback for a client that does not announce its waits (the hook of hookLog is the
+		// precise trigger): cancel a few milliseconds into the wait that follows this dial
+		go func() {
+			time.Sleep(8 * time.Millisecond)
+			if s.announced() < k {
+				s.cancel()
+			}
+		}()
 	}
 	ent := s.script[k-1]
 	switch {
@@ -412,6 +428,12 @@ func (e *boEngine) connect(o *Out, ws []string) string {
 	fs := &fakeSrv{script: script, beyond: make(chan struct{}, 1), release: make(chan struct{}), cancelAt: cancelAt, cancel: cancel}
 	srv := httptest.NewServer(fs)
 	hl := &hookLog{cancelAfter: cancelAfter, cancel: cancel}
+	fs.cancelAfter = cancelAfter
+	fs.announced = func() int {
+		hl.mu.Lock()
+		defer hl.mu.Unlock()
+		return len(hl.waits)
+	}
 	su, _ := url.Parse(srv.URL)
 	u := &client.Upstream{
 		URL:                 su,
